@@ -382,6 +382,51 @@ def run_dnp(cases):
     return p
 
 
+# ------------------------------------------------------------------------------------------
+# delayed REPETITION (1XX000 followed by 031011 / 031012): the data are present ONCE and stand for N copies.  The library
+# does not implement repetition; what it must not do is read N copies from the data section as if it were a replication.
+def run_repetition(_):
+    from mc.ref import message
+    from mc.ref.bits import BitBuf
+    from pybufrkit.errors import PyBufrKitError
+    p = Partial()
+    for factor, fw in ((31011, 8), (31012, 16)):
+        for count in (0, 1, 3):
+            for comp, nsub in ((False, 1), (False, 2), (True, 2)):
+                descs = [101000, factor, 1001, 1002]
+                bb = BitBuf()
+                for s_ in range(1 if comp else nsub):
+                    for v, w in ((count, fw), (5, 7), (77, 10)):
+                        bb.put(v, w)
+                        if comp:
+                            bb.put(0, 6)
+                for _ in range(8):
+                    bb.put(0, 8)              # room: a wrong reading must not be rescued by running out of data
+                b = message.build(message.Spec(descs=descs, nsub=nsub, compressed=comp), bb)[0]
+                want = [count] + [5] * count + [77]
+                for which, dec in (('plain', CC.decoder()), ('compiled', CC.compiled_decoder())):
+                    p.n['exec'] += 1
+                    try:
+                        import contextlib, io
+                        with contextlib.redirect_stderr(io.StringIO()):
+                            m = dec.process(b, wire_template_data=False)
+                        got = [list(v) for v in m.template_data.value.decoded_values_all_subsets]
+                        out = 'ok'
+                    except PyBufrKitError:
+                        out, got = 'refused', None
+                    except Exception as e:
+                        out, got = type(e).__name__, None
+                    p.outcome((factor, count, comp, which, out))
+                    if out == 'refused' or (out == 'ok' and all(g in (want, [count, 5, 77]) for g in got)):
+                        continue
+                    p.violation('repetition|%s|%s' % ('wrong-values' if out == 'ok' else out, which),
+                                {'descs': descs, 'count': count, 'nsub': nsub, 'compressed': comp, 'decoder': which},
+                                '1 01 000 %06d 001001 001002 with count %d: %s %r; FM-94: the repeated data are present once (%r), or the '
+                                'library refuses the descriptor' % (factor, count, out, got, want), observed=b)
+    p.n['nodes'], p.n['edges'] = p.n['exec'] + 1, p.n['exec']
+    return p
+
+
 def replay(part, case):
     if part.startswith('bitmap'):
         s_ = case['struct']
@@ -389,6 +434,10 @@ def replay(part, case):
         return [{'sig': v['sig'], 'detail': v['detail']} for v in p.viol if v['case']['choices'] == case['choices']]
     if part.startswith('tree'):
         return CC.replay_tree(case)
+    if part == 'repetition':
+        p = run_repetition(None)
+        return [{'sig': v['sig'], 'detail': v['detail']} for v in p.viol
+                if all(v['case'][k_] == case[k_] for k_ in ('descs', 'count', 'nsub', 'compressed', 'decoder'))]
     if part == 'dnp-spans':
         p = run_dnp([(case['case'][0], case['case'][1])])
         return [{'sig': v['sig'], 'detail': v['detail']} for v in p.viol
@@ -463,6 +512,10 @@ def main(tier, seed):
         p = merge_all(run_shards(run_bitmap, [(s_, env) for s_ in split(use, 64)]))
         rep.add_part(bname, p, bounds=dict(structures=len(use), **env))
 
+    rep.add_part('repetition', run_repetition(None), bounds={'factors': [31011, 31012], 'counts': [0, 1, 3],
+                                                             'envelopes': ['1 subset', '2 subsets', '2 compressed'], 'decoders': 2},
+                 rule='delayed repetition: the decode gives the FM-94 reading (data present once) or the library error; reading N '
+                      'copies from the data section is a violation')
     dc = dnp_cases(tier)
     p = merge_all(run_shards(run_dnp, split(dc, 64)))
     rep.add_part('dnp-spans', p, bounds={'cases': len(dc), 'tokens': DNP_TOKENS, 'max_span_content': 3 if tier == 'quick' else 4},
